@@ -264,16 +264,42 @@ func init() {
 		return out
 	})
 	B("FillBytes", func(fr *frame, args []value) value {
-		a := mustConcBig(getBig(args[0]), "FillBytes()")
+		t := getBig(args[0])
 		buf := args[1].([]value)
-		tmp := make([]byte, len(buf))
-		if (a.BitLen()+7)/8 > len(buf) {
-			panic(targetPanic{iface{rtErrType, "math/big: buffer too small to fit value"}})
+		if a, ok := concBig(t); ok {
+			tmp := make([]byte, len(buf))
+			if (a.BitLen()+7)/8 > len(buf) {
+				panic(targetPanic{iface{rtErrType, "math/big: buffer too small to fit value"}})
+			}
+			a.FillBytes(tmp)
+			for j := range buf {
+				buf[j] = tmp[j]
+			}
+			return buf
 		}
-		a.FillBytes(tmp)
+		// symbolic: only values the path condition bounds below 2^8 (one symbolic byte via a table)
+		px := fr.px()
+		bits := 0
+		for _, k := range []int{4, 8} {
+			out := mkOr(intCmp("<", t, mkInt(0)), intCmp(">=", t, mkInt(int64(1)<<uint(k))))
+			if px.solver.CheckWith(out) == Unsat {
+				bits = k
+				break
+			}
+		}
+		if bits == 0 || len(buf) == 0 {
+			panic(engineError{"big.Int.FillBytes on a symbolic value not bounded below 256 by the path condition"})
+		}
+		px.w.ex.noteAssumption("big.Int.FillBytes of a symbolic value is encoded through a value table (value proven < 256 on the path)")
+		n := 1 << uint(bits)
+		last := mkBV(8, uint64(n-1))
+		for v := n - 2; v >= 0; v-- {
+			last = mkIte(mkEq(t, mkInt(int64(v))), mkBV(8, uint64(v)), last)
+		}
 		for j := range buf {
-			buf[j] = tmp[j]
+			buf[j] = uint8(0)
 		}
+		buf[len(buf)-1] = mkVal(last, types.Uint8)
 		return buf
 	})
 	B("Exp", func(fr *frame, args []value) value {
